@@ -222,4 +222,23 @@ PROPS = {
             {"engine": "vt", "quick": 8000, "thorough": 600000, "what": "E-A: client tasks under the poll interposer (exact replay)"},
         ],
     },
+    "C11": {
+        "level": "exploration",
+        "technique": "runtime monitoring: single-writer register oracle per (scope, group, actor) over stamped join/leave/read histories; per-monitor notification sequence + count oracle (effective exactly once, ineffective at most once, one automatic leave per group held at exit, nobody else notified); cross-index agreement of the H3 pg snapshot and of all six query functions at quiescence; thread noise at the lock gaps of join/leave_all/demonitor_all/monitor",
+        "level_text": ("Exploration: 2-5 owner clients (threads / tasks), each the only writer for 1-3 of its own actors (live probes and "
+                       "remote-id cells), run 6-30 operations over 2 scopes x 3 groups: join (with duplicates in one call, repeated joins), "
+                       "leave, reads through get_(scoped_)(local_)members plus the four listing functions, and exits of their actors; a "
+                       "churn client registers/removes monitors and lets monitors die while registrations race their exit. Four stable "
+                       "monitors (group, scope, all-scopes, none) log every notification. Held on the histories observed."),
+        "level_note": ("Reads are decided only when no operation of the pair's single writer overlaps the read interval. Notification "
+                       "oracles use the monitors' receive order; duplicates for ineffective operations are tolerated as the property allows. "
+                       "Empty reverse-index records of live actors are not demanded to be pruned (invisible through the API)."),
+        "rule": ("non-trivial = >= 2 effective membership transitions and at least one read decided by the register oracle or one notification "
+                 "observed; distinct = hash(#transitions, #effective, #reads, #decided reads, #notifications, #exits)."),
+        "assumptions": ["each (key, actor) pair has a single writing client by construction"],
+        "runs": [
+            {"engine": "th", "quick": 3200, "thorough": 400000, "what": "E-T: owner threads with noise at PG_JOIN_AFTER_FILTER/ENTRY, PG_LEAVE_ALL_AFTER_TAKE, PG_DEMONITOR_ALL_AFTER_TAKE, PG_MONITOR_AFTER_REGISTER"},
+            {"engine": "vt", "quick": 6400, "thorough": 400000, "what": "E-A: owner tasks under the poll interposer"},
+        ],
+    },
 }
